@@ -223,10 +223,16 @@ def rule_blank_buffer(ctx):
     # means that the column is set only under indent_single_newlines
     setters = db.callers_of("Chunk::SetNlColumn")
     r.require(len(setters) >= 1, "no caller of Chunk::SetNlColumn")
+    from ..flow import provenance_options
     for f, n in setters:
         r.seen()
         cs = _conds(f, n)
-        r.check(("options::indent_single_newlines()", True) in cs, "%s/SetNlColumn-only-on-request" % f.qn.split("::")[-1], db.loc(f, n),
+        rdf = ReachingDefs(f, db)
+        # the controlling fact may read the option directly or through a local that caches it
+        on_request = ("options::indent_single_newlines()", True) in cs or any(
+            pol is True and cn is not None and "&&" not in expr_str(f, cn) and "||" not in expr_str(f, cn) and not expr_str(f, cn).startswith("!")
+            and "indent_single_newlines" in provenance_options(f, rdf, cn) for cn, pol in f.guard_conds(f.nblock[n["i"]]))
+        r.check(on_request, "%s/SetNlColumn-only-on-request" % f.qn.split("::")[-1], db.loc(f, n),
                 "the column to which blank lines are padded is set outside `options::indent_single_newlines()` (%s): blank lines come out with "
                 "trailing blanks although nobody asked for them" % cs[-3:])
     # a tab is written at once (only blanks are buffered and dropped at a line break): a literal tab written by output_text()
